@@ -178,15 +178,17 @@ structure AddRelMore (w : World) (e : Ent) (ids : List Comp) (vals : List (Comp 
 
 theorem opAdd_rel_more (run : ProbeRunner) (p : Path) {w : World} {fl : List Nat} (h : TInv w fl)
     (hl : w.isLocked = false) (hno : ∀ (evt : Nat), w.obs.hasObservers evt = false) {e : Ent}
-    (h2 : 2 ≤ e.id) (hnf : e.id ∉ fl) (ha : w.alive e = true) {ids : List Comp}
+    (h2 : 2 ≤ e.id) (hnf : e.id ∉ fl) (ha : w.alive e = true)
+    (hsl : e.id < w.pool.ents.length) {ids : List Comp}
     {vals : List (Comp × Val)} {rels : List RelID}
     (hreg : ∀ (c : Comp), c ∈ ids → c < w.kinds.length)
     (hnd : (rels.map (·.comp)).Nodup) (hin : ∀ (r : RelID), r ∈ rels → r.comp ∈ ids)
     (hrc : ∀ (r : RelID), r ∈ rels → w.isRelComp r.comp = true)
+    (htin : ∀ (r : RelID), r ∈ rels → r.target.id < w.pool.ents.length)
     (hfew : w.tables.length < maxU32) (hrows : w.entities.length + 1 < 2 ^ 32)
     {w' : World} (hok : opAdd run p e ids vals rels w = .ok () w') :
     AddRelMore w e ids vals w' := by
-  obtain ⟨oldT, row, he, htm, _⟩ := h.link.live_entry h2 hnf ha
+  obtain ⟨oldT, row, he, htm, _⟩ := h.link.live_entry h2 hnf ha hsl
   have hix := index_of_get he
   have hI := h.link.idx
   obtain ⟨hT, hrow, hid⟩ := hI.indexed he htm
@@ -282,7 +284,7 @@ theorem opAdd_rel_more (run : ProbeRunner) (p : Path) {w : World} {fl : List Nat
         intro r hr hz
         rcases hvalid r hr with k | k
         · rw [k] at hz; cases hz
-        · have := h.link.alive_lt k
+        · have := h.link.lt_of_in (htin r hr)
           rw [hu.isTarget, h.link.tgtLen]; exact this)
     have hcore := addCore_rel_eq e ids rels w hl ha hemp hix hf
     have hno3 : ∀ (evt : Nat), (registerW (addMove w1 e oldT row newT mask) rels).obs.hasObservers evt
@@ -392,11 +394,12 @@ structure SetRelMore (w w' : World) : Prop where
 
 theorem setRelationsCore_more (run : ProbeRunner) {w : World} {fl : List Nat} (h : TInv w fl)
     (hl : w.isLocked = false) (hno : ∀ (evt : Nat), w.obs.hasObservers evt = false) {e : Ent}
-    (h2 : 2 ≤ e.id) (hnf : e.id ∉ fl) (ha : w.alive e = true) {rels : List RelID}
+    (h2 : 2 ≤ e.id) (hnf : e.id ∉ fl) (ha : w.alive e = true)
+    (hsl : e.id < w.pool.ents.length) {rels : List RelID}
     (hne : rels.isEmpty = false) (hnd : (rels.map (·.comp)).Nodup)
     (hhas : ∀ (r : RelID), r ∈ rels → (targetOf w e.id r.comp).isSome = true)
     {w' : World} (hok : setRelationsCore run e rels w = .ok () w') : SetRelMore w w' := by
-  obtain ⟨oldT, row, he, htm, _⟩ := h.link.live_entry h2 hnf ha
+  obtain ⟨oldT, row, he, htm, _⟩ := h.link.live_entry h2 hnf ha hsl
   have hix := index_of_get he
   have hI := h.link.idx
   obtain ⟨hT, hrow, hid⟩ := hI.indexed he htm
@@ -479,7 +482,8 @@ theorem setRelationsCore_more (run : ProbeRunner) {w : World} {fl : List Nat} (h
 
 theorem opSetRelations_more (run : ProbeRunner) (p : Path) {w : World} {fl : List Nat}
     (h : TInv w fl) (hl : w.isLocked = false) (hno : ∀ (evt : Nat), w.obs.hasObservers evt = false)
-    {e : Ent} (h2 : 2 ≤ e.id) (hnf : e.id ∉ fl) (ha : w.alive e = true) {mapperIds : List Comp}
+    {e : Ent} (h2 : 2 ≤ e.id) (hnf : e.id ∉ fl) (ha : w.alive e = true)
+    (hsl : e.id < w.pool.ents.length) {mapperIds : List Comp}
     {rels : List RelID} (hne : rels.isEmpty = false) (hnd : (rels.map (·.comp)).Nodup)
     (hhas : ∀ (r : RelID), r ∈ rels → (targetOf w e.id r.comp).isSome = true)
     {w' : World} (hok : opSetRelations run p e mapperIds rels w = .ok () w') :
@@ -489,7 +493,7 @@ theorem opSetRelations_more (run : ProbeRunner) (p : Path) {w : World} {fl : Lis
     · exact h1
     · simp [opSetRelations, bind, M.bind, h1] at hok
   simp only [opSetRelations, bind, M.bind, hpre] at hok
-  exact setRelationsCore_more run h hl hno h2 hnf ha hne hnd hhas hok
+  exact setRelationsCore_more run h hl hno h2 hnf ha hsl hne hnd hhas hok
 
 /-! ## 4. `RemoveEntity`: one `Recycle`; registry bound and relation archetypes are kept -/
 
@@ -501,12 +505,12 @@ structure RemovedRelMore (w : World) (g : Ent) (w' : World) : Prop where
 
 theorem opRemoveEntity_rel_more (run : ProbeRunner) {w : World} {fl : List Nat} (h : TInv w fl)
     (hl : w.isLocked = false) (hno : ∀ (evt : Nat), w.obs.hasObservers evt = false) {g : Ent}
-    (h2 : 2 ≤ g.id) (hnf : g.id ∉ fl) (ha : w.alive g = true)
+    (h2 : 2 ≤ g.id) (hnf : g.id ∉ fl) (ha : w.alive g = true) (hsl : g.id < w.pool.ents.length)
     (hfew : w.tables.length + w.relationArchetypes.length + 1 ≤ maxU32)
     (hrows : 2 * w.entities.length < 2 ^ 32) {w' : World}
     (hok : opRemoveEntity run g w = .ok () w') : RemovedRelMore w g w' := by
   have hg0 : g.id ≠ 0 := by omega
-  obtain ⟨t, row, hix, rl⟩ := h.link.removed h2 hnf ha
+  obtain ⟨t, row, hix, rl⟩ := h.link.removed h2 hnf ha hsl
   obtain ⟨fk, fa, fm⟩ := removeRowOf_fields w g t row
   obtain ⟨fra, fc⟩ := removeRowOf_more w g t row
   have hP := removeRowOf_pool w g t row
@@ -587,9 +591,10 @@ structure WriteRelPost (w : World) (fl : List Nat) (e : Ent) (vals : List (Comp 
   entitiesLen : w'.entities.length = w.entities.length
 
 theorem TInv.writeValsRel {w : World} {fl : List Nat} (h : TInv w fl) {e : Ent} (h2 : 2 ≤ e.id)
-    (hnf : e.id ∉ fl) (ha : w.alive e = true) (vals : List (Comp × Val)) :
+    (hnf : e.id ∉ fl) (ha : w.alive e = true)
+    (hsl : e.id < w.pool.ents.length) (vals : List (Comp × Val)) :
     WriteRelPost w fl e vals (writeValsW w e vals) := by
-  obtain ⟨t, row, he, htm, _⟩ := h.link.live_entry h2 hnf ha
+  obtain ⟨t, row, he, htm, _⟩ := h.link.live_entry h2 hnf ha hsl
   have hI := h.link.idx
   obtain ⟨hT, hrow, _⟩ := hI.indexed he htm
   have hlt := lt_of_get hT
@@ -618,9 +623,10 @@ theorem TInv.writeValsRel {w : World} {fl : List Nat} (h : TInv w fl) {e : Ent} 
 
 /-- the table of a live entity has a column for `c` iff `c` is one of its components -/
 theorem TInv.has_iff_comps {w : World} {fl : List Nat} (h : TInv w fl) {e : Ent} (h2 : 2 ≤ e.id)
-    (hnf : e.id ∉ fl) (ha : w.alive e = true) {cs : List Comp} (hcs : compsOf w e.id = some cs)
+    (hnf : e.id ∉ fl) (ha : w.alive e = true)
+    (hsl : e.id < w.pool.ents.length) {cs : List Comp} (hcs : compsOf w e.id = some cs)
     (c : Comp) : (w.tbl (w.index e.id).1).has c = true ↔ c ∈ cs := by
-  obtain ⟨t, row, he, htm, _⟩ := h.link.live_entry h2 hnf ha
+  obtain ⟨t, row, he, htm, _⟩ := h.link.live_entry h2 hnf ha hsl
   obtain ⟨hT, _, _⟩ := h.link.idx.indexed he htm
   simp only [compsOf, he, htm, if_false, hT, Option.map_some] at hcs
   rw [index_of_get he, Table.has_iff_mem, Option.some.inj hcs]
@@ -628,18 +634,20 @@ theorem TInv.has_iff_comps {w : World} {fl : List Nat} (h : TInv w fl) {e : Ent}
 /-- **`Set`** on a live entity that has all the components `ids`, in a world with relations -/
 theorem opSet_rel_spec (run : ProbeRunner) {w : World} {fl : List Nat} (h : TInv w fl)
     (hno : ∀ (evt : Nat), w.obs.hasObservers evt = false) {e : Ent}
-    (h2 : 2 ≤ e.id) (hnf : e.id ∉ fl) (ha : w.alive e = true) {cs : List Comp}
+    (h2 : 2 ≤ e.id) (hnf : e.id ∉ fl) (ha : w.alive e = true)
+    (hsl : e.id < w.pool.ents.length) {cs : List Comp}
     (hcs : compsOf w e.id = some cs) {ids : List Comp} (hhas : ∀ (c : Comp), c ∈ ids → c ∈ cs)
     (vals : List (Comp × Val)) :
     ∃ (w' : World), opSet run e ids vals w = .ok () w' ∧ WriteRelPost w fl e vals w' := by
-  refine ⟨_, opSet_eq run w e ids vals ha ?_ (hno _), h.writeValsRel h2 hnf ha vals⟩
+  refine ⟨_, opSet_eq run w e ids vals ha ?_ (hno _), h.writeValsRel h2 hnf ha hsl vals⟩
   rw [List.all_eq_true]
   intro c hc
-  exact (h.has_iff_comps h2 hnf ha hcs c).mpr (hhas c hc)
+  exact (h.has_iff_comps h2 hnf ha hsl hcs c).mpr (hhas c hc)
 
 /-- **rejection**: `Set` naming a component the entity lacks panics `missing`, state unchanged -/
 theorem opSet_rel_missing (run : ProbeRunner) {w : World} {fl : List Nat} (h : TInv w fl) {e : Ent}
-    (h2 : 2 ≤ e.id) (hnf : e.id ∉ fl) (ha : w.alive e = true) {cs : List Comp}
+    (h2 : 2 ≤ e.id) (hnf : e.id ∉ fl) (ha : w.alive e = true)
+    (hsl : e.id < w.pool.ents.length) {cs : List Comp}
     (hcs : compsOf w e.id = some cs) {ids : List Comp}
     (hmiss : ¬ ∀ (c : Comp), c ∈ ids → c ∈ cs) (vals : List (Comp × Val)) :
     opSet run e ids vals w = .panic .missing w := by
@@ -650,7 +658,7 @@ theorem opSet_rel_missing (run : ProbeRunner) {w : World} {fl : List Nat} (h : T
     exfalso
     apply hmiss
     intro c hc
-    exact (h.has_iff_comps h2 hnf ha hcs c).mp (List.all_eq_true.mp hall c hc)
+    exact (h.has_iff_comps h2 hnf ha hsl hcs c).mp (List.all_eq_true.mp hall c hc)
 
 /-! ## 6. `registerComponent` is invisible to the entities -/
 
@@ -722,9 +730,10 @@ theorem TInv.targetOf_isSome_iff {w : World} {fl : List Nat} (h : TInv w fl) {i 
 
 /-- the mask of a live entity is its component set -/
 theorem TInv.mask_iff_comps {w : World} {fl : List Nat} (h : TInv w fl) {e : Ent} (h2 : 2 ≤ e.id)
-    (hnf : e.id ∉ fl) (ha : w.alive e = true) {cs : List Comp} (hcs : compsOf w e.id = some cs)
+    (hnf : e.id ∉ fl) (ha : w.alive e = true)
+    (hsl : e.id < w.pool.ents.length) {cs : List Comp} (hcs : compsOf w e.id = some cs)
     (c : Comp) : (w.maskOf e).get c = true ↔ c ∈ cs := by
-  obtain ⟨t, row, he, htm, _⟩ := h.link.live_entry h2 hnf ha
+  obtain ⟨t, row, he, htm, _⟩ := h.link.live_entry h2 hnf ha hsl
   obtain ⟨hT, _, _⟩ := h.link.idx.indexed he htm
   have hS := h.rel.sinv.toSInvMid
   obtain ⟨A, hA, e1, _⟩ := hS.tblArch t _ hT
@@ -820,10 +829,11 @@ end World
     refused, the world unchanged -/
 theorem setRelationsCore_missing (run : ProbeRunner) {w : World} {fl : List Nat} (h : TInv w fl)
     (hl : w.isLocked = false) {e : Ent} (h2 : 2 ≤ e.id) (hnf : e.id ∉ fl) (ha : w.alive e = true)
+    (hsl : e.id < w.pool.ents.length)
     {rels : List RelID} (hne : rels.isEmpty = false)
     (hbad : ∃ (r : RelID), r ∈ rels ∧ targetOf w e.id r.comp = none) :
     ∃ (k : PanicKind), setRelationsCore run e rels w = .panic k w := by
-  obtain ⟨oldT, row, he, htm, _⟩ := h.link.live_entry h2 hnf ha
+  obtain ⟨oldT, row, he, htm, _⟩ := h.link.live_entry h2 hnf ha hsl
   have hix := index_of_get he
   obtain ⟨hT, _, _⟩ := h.link.idx.indexed he htm
   obtain ⟨r, hr, hnone⟩ := hbad
@@ -865,11 +875,12 @@ theorem World.getOrCreate_panic_state {a : Nat} {rels : List RelID} {w s : World
     not pre-validate) -/
 theorem setRelationsCore_deadTarget (run : ProbeRunner) {w : World} {fl : List Nat} (h : TInv w fl)
     (hl : w.isLocked = false) {e : Ent} (h2 : 2 ≤ e.id) (hnf : e.id ∉ fl) (ha : w.alive e = true)
+    (hsl : e.id < w.pool.ents.length)
     {rels : List RelID} (hne : rels.isEmpty = false) (hnd : (rels.map (·.comp)).Nodup)
     (hhas : ∀ (r : RelID), r ∈ rels → (targetOf w e.id r.comp).isSome = true)
     (hd : ∃ (r : RelID), r ∈ rels ∧ r.target.isZero = false ∧ w.alive r.target = false) :
     ∃ (k : PanicKind), setRelationsCore run e rels w = .panic k w := by
-  obtain ⟨oldT, row, he, htm, _⟩ := h.link.live_entry h2 hnf ha
+  obtain ⟨oldT, row, he, htm, _⟩ := h.link.live_entry h2 hnf ha hsl
   have hix := index_of_get he
   have hI := h.link.idx
   obtain ⟨hT, hrow, hid⟩ := hI.indexed he htm
